@@ -33,9 +33,17 @@ def is_refusal(exc):
     msg = exc.get("msg") or ""
     if not msg.strip():
         return False
+    if msg == "SmallResidualException" and "sqrt_lasso.py" in where:
+        return True      # documented data-dependent refusal of the square-root datafit
     ok_where = ("validation.py", "solvers/base.py", ":custom_checks", ":initialize",
                 ":initialize_sparse", ":_validate", "utils/data.py")
     if any(t in where for t in ok_where):
+        return True
+    # a Python-level AttributeError of the solver that names the attribute the composition lacks
+    if exc["type"] == "AttributeError" and "has no attribute" in msg and \
+            (where.endswith(":_solve") or where.endswith(":solve") or where.endswith(":path")) \
+            and "solvers/" in where or (exc["type"] == "AttributeError" and "has no attribute" in msg
+                                        and "experimental/pdcd_ws.py" in where):
         return True
     # explicit raises at the top of _solve (w_init length, strategy names)
     if where.endswith(":_solve") and ("should be" in msg or "Unsupported" in msg
@@ -134,7 +142,17 @@ class Judge:
                                                                             where=exc.get("where")))))
             return out
         res["outcome"] = "solved"
-        pr, w, b = self.split(res)
+        try:
+            pr, w, b = self.split(res)
+        except Exception as e:
+            # the reference model cannot even form this composition (structure mismatch that
+            # skglm accepted): only finiteness can be judged
+            res["unmodelled"] = repr(e)[:200]
+            wv = np.asarray(res["w"], dtype=float)
+            if not (np.all(np.isfinite(wv)) and np.all(np.isfinite(res["obj_out"]))):
+                out.append(dict(prop=["C13"], oracle="finite", sig=sig0 + ("nonfinite",),
+                                detail=dict(unmodelled=True), feat=self.feat(res)))
+            return out
         knobs = res["knobs"]
         tol = knobs.get("tol", 1e-4)
         finite = pr.finite(w, b) and np.all(np.isfinite(res["obj_out"])) \
@@ -164,7 +182,7 @@ class Judge:
         # ---- C19 exact zero on all-zero columns (of a result that claims convergence: an
         # exhausted budget may legitimately return the caller's start point)
         if ctx.get("degenerate") and claimed:
-            out.extend(self._zero_columns(pr, res, w))
+            out.extend(self._zero_columns(pr, res, w, tol))
         crit = criterion_of(s.solver_name, knobs)
         if claimed and crit in ("subdiff", "fixpoint") and pr.pen.kind != "vec" \
                 and s.solver_name in B.C01_SOLVERS:
@@ -175,7 +193,10 @@ class Judge:
         out.extend(self._diagnostics(pr, res, w, b, tol, crit, claimed, ctx))
         return out
 
-    def _zero_columns(self, pr, res, w):
+    def _zero_columns(self, pr, res, w, tol):
+        """A penalised coefficient on an all-zero column must be exactly zero in a result that
+        claims convergence -- wherever leaving it non-zero breaks stationarity by more than the
+        tolerance (with a penalty slope below tol the start value is itself tol-stationary)."""
         out = []
         zero_cols = np.where(~pr.absX.any(axis=0))[0]
         if len(zero_cols) == 0:
@@ -187,12 +208,15 @@ class Judge:
             for k in range(pr.pen.units(pr.p)):
                 idx = pr.pen.unit_indices(k)
                 if pmask[k] and not pr.absX[:, idx].any() and np.any(wv[idx] != 0):
-                    bad.append(int(k))
+                    if pr.pen.subdiff_dist(wv, np.zeros_like(wv))[k] > tol * (1 + REL):
+                        bad.append(int(k))
         elif pr.pen.kind in ("sep", "row"):
             if pr.pen.name in ("IndicatorBox", "PositiveConstraint", "L2"):
                 return out
+            zero_g = np.zeros_like(wv)
+            dist0 = pr.pen.subdiff_dist(wv, zero_g)
             for j in zero_cols:
-                if pmask[j] and np.any(wv[j] != 0):
+                if pmask[j] and np.any(wv[j] != 0) and dist0[j] > tol * (1 + REL):
                     bad.append(int(j))
         if bad:
             out.append(dict(prop=["C19"], oracle="zero_column",
